@@ -162,6 +162,16 @@ def run(tier, seed):
             dirt = [("set", "enteringExcludedRegionGcode", "M117 ENTER", ["M117 ENTER"]),
                     ("set", "exitingExcludedRegionGcode", "M117 EXIT", ["M117 EXIT"]),
                     ("pev", "SettingsUpdated")] + dirt
+        if random.Random(seed * 131 + index).random() < 0.3:
+            # an entry of the extended-code table that was configured for a while and removed
+            # again before the print under test (its own random stream: the other draws stay put)
+            def rows(table):
+                return [{"gcode": c, "mode": m, "description": ""} for c, m in table.items()]
+            was = dict(record.DEFAULT_XG, M900=["exclude", "merge", "first", "last"][index % 4])
+            now = dict(record.DEFAULT_XG)
+            dirt = [("set", "extendedExcludeGcodes", rows(was), was), ("pev", "SettingsUpdated"),
+                    ("set", "extendedExcludeGcodes", rows(now), now),
+                    ("pev", "SettingsUpdated")] + dirt
         dirts.append(dirt)
         used.steps = list(hist.steps) + dirt + sync_settings(list(hist.steps) + dirt) + \
             [("pev", "PrintStarted")] + list(probe)
